@@ -143,34 +143,39 @@ Section MPIColl.
     end.
   Definition c07_MPI_allgatherv := c07_MPI_allgatherv_loop.
   (* MPI_Bcast: every non-root rank receives root's first len elements *)
+  Fixpoint c07_bcast_go (root : nat) (data : list E) (r : nat) (bs : bufs) : option bufs :=
+    match bs with
+    | [] => Some []
+    | b :: bs' =>
+        match (if r =? root then Some b else put data b 0), c07_bcast_go root data (S r) bs' with
+        | Some b', Some rest => Some (b' :: rest) | _, _ => None end
+    end.
   Definition c07_MPI_bcast (root len : nat) (inouts : bufs) : option bufs :=
     match nth_error inouts root with
     | None => None
-    | Some rb =>
-        match c07_take rb 0 len with
-        | None => None
-        | Some data =>
-            (fix go (r : nat) (bs : bufs) : option bufs :=
-               match bs with
-               | [] => Some []
-               | b :: bs' =>
-                   match (if r =? root then Some b else put data b 0), go (S r) bs' with
-                   | Some b', Some rest => Some (b' :: rest) | _, _ => None end
-               end) 0 inouts
-        end
+    | Some rb => match c07_take rb 0 len with None => None | Some data => c07_bcast_go root data 0 inouts end
     end.
-  (* MPI_Allreduce with an op: every rank receives the rank-order reduction (for built-in ops and for
-     user ops created with commute=true the library may use any tree: C07_user_op) *)
+  (* MPI_Allreduce with an op: rank r receives, at the front of its output buffer, the combination of all ranks' first len elements.
+     c07_MPI_allreduce: combined in rank order (built-in ops).  c07_MPI_allreduce_trees: what the library may do for a user op created with
+     commute = true -- rank r's result is combined along ITS OWN binary tree over any arrangement of the ranks (trees = one per rank) *)
+  Fixpoint c07_take_all (len : nat) (bs : bufs) : option bufs :=
+    match bs with [] => Some [] | b :: bs' =>
+      match c07_take b 0 len, c07_take_all len bs' with Some x, Some r => Some (x :: r) | _, _ => None end end.
+  Fixpoint c07_put_each (ress outs : bufs) : option bufs :=
+    match ress, outs with
+    | [], [] => Some []
+    | res :: ress', o :: outs' => match put res o 0, c07_put_each ress' outs' with Some o', Some rest => Some (o' :: rest) | _, _ => None end
+    | _, _ => None
+    end.
   Definition c07_MPI_allreduce (f : E -> E -> E) (len : nat) (ins outs : bufs) : option bufs :=
-    match (fix takes (bs : bufs) : option bufs :=
-             match bs with [] => Some [] | b :: bs' =>
-               match c07_take b 0 len, takes bs' with Some x, Some r => Some (x :: r) | _, _ => None end end) ins with
+    match c07_take_all len ins with
     | None => None
-    | Some xs =>
-        let res := c07_reduce_ranks f xs in
-        (fix go (bs : bufs) : option bufs :=
-           match bs with [] => Some [] | o :: bs' =>
-             match put res o 0, go bs' with Some o', Some rest => Some (o' :: rest) | _, _ => None end end) outs
+    | Some xs => c07_put_each (repeat (c07_reduce_ranks f xs) (length outs)) outs
+    end.
+  Definition c07_MPI_allreduce_trees (f : E -> E -> E) (len : nat) (trees : list c07_tree) (ins outs : bufs) : option bufs :=
+    match c07_take_all len ins with
+    | None => None
+    | Some xs => c07_put_each (map (c07_tree_eval f xs) trees) outs
     end.
 
   (* ---- the Dune wrappers (mpicommunication.hh): argument computations only ---- *)
@@ -436,3 +441,14 @@ Section Rrecv.
   Definition c07_recv (sent data : list E) : option (list E) :=
     if length sent <=? length data then c07_put merge sent data 0 else None.
 End Rrecv.
+
+(* one matching send / rrecv pair of an MPIPack over the network: send(pack) puts the WHOLE buffer on the wire as MPI_PACKED bytes
+   (count = buffer size, not the cursor); rrecv(MPIPack(comm), ...) sizes the receiving pack's buffer from the message (c07_rrecv with
+   one-byte items) and leaves its cursor where it was (0 for a fresh pack) *)
+Definition c07_pack_wire (B : Type) (p : c07_pack B) : list B := c07_pk_buf B p.
+Definition c07_pack_rrecv (B : Type) (zeroB : B) (wire : list B) (p0 : c07_pack B) : option (c07_pack B) :=
+  match c07_rrecv B (fun s _ => s) zeroB 1 wire (c07_pk_buf B p0) with
+  | None => None
+  | Some b => Some (C07_PK B b (c07_pk_pos B p0))
+  end.
+
